@@ -359,13 +359,16 @@ def run_protocol(ctx, rng):
         loop = new_loop()
         try:
             up = build_tree(rng, base)
-            size = rng.choice([1, 5, 16, 63, 64])
-            extra = rng.choice([0, 0, 1, 7])
+            # (size 0 is a delete; the configured tokens include one with '=' in it - base64 padding - which reaches the
+            # handler whole)
+            size = rng.choice([0, 1, 5, 16, 63, 64])
+            extra = rng.choice([0, 0, 1, 7]) if size else 0
             body = bytes(rng.getrandbits(8) for _ in range(size + extra))
             path, pclass = rng.choice(PATHS[:6] + PATHS[10:14])
-            line = f"titan://localhost{path};size={size};mime=text/plain;token=good\r\n".encode()
+            tok_txt = rng.choice(["good", "good", "dG9rZW4=", "k=v=w"])
+            line = f"titan://localhost{path};size={size};mime=text/plain;token={tok_txt}\r\n".encode()
             data = line + body
-            h = FileUploadHandler(up, max_size=LIMIT, auth_tokens={"good"}, enable_delete=True)
+            h = FileUploadHandler(up, max_size=LIMIT, auth_tokens={"good", "dG9rZW4=", "k=v=w"}, enable_delete=True)
             before = fstree.snapshot([base])
             # how the bytes arrive: in pieces; or the upload in one go and stray bytes right behind it in a read of their
             # own - back to back (before the loop has run anything) or while a slow middleware chain is still deciding
@@ -397,10 +400,14 @@ def run_protocol(ctx, rng):
             status = int(stream[:2]) if stream[:2].isdigit() else None
             from nauyaca.protocol.request import TitanRequest
 
-            req = TitanRequest.from_line(line[:-2].decode())
-            req.content = body[:size]
+            # (the expectation is built from what was put on the line, not from what the parser under test makes of it)
+            from types import SimpleNamespace
+
+            req = SimpleNamespace(raw_url=line[:-2].decode(), token=tok_txt, size=size, mime_type="text/plain", content=body[:size])
             ctx.count("monitor", "protocol_uploads")
-            check_outcome(ctx, base, up, before, after, [], req, status, {"tokens": ["good"], "max_size": LIMIT, "types": None, "delete": True}, pclass, "valid", None, via="L1")
+            if size == 0:
+                ctx.count("monitor", "protocol_deletes")
+            check_outcome(ctx, base, up, before, after, [], req, status, {"tokens": ["good", "dG9rZW4=", "k=v=w"], "max_size": LIMIT, "types": None, "delete": True}, pclass, "valid", None, via="L1")
             ctx.case(("L1", pclass, size, extra, status), True, sample={"via": "L1", "line": line[:80], "extra_bytes": extra, "status": status})
         finally:
             close_loop(loop)
